@@ -84,11 +84,13 @@ Comb(k, a, b) ==
     [] k = "index"  -> Idx(Tup(<<a, b>>), 0)
 \* the mutator is an int; where the combiner needs a bool second operand it is compared
 MutAs(k, m) == IF k = "andgt" THEN Bin(">", m, I(0)) ELSE m
-OrderExpr(w, f, k, dir) ==
-  LET a == Obs(f, Reader(w))  m == Mutator(w) IN
+\* r: the expression that reads the watched state, m: the call that changes it
+OrderExprRM(r, m, f, k, dir) ==
+  LET a == Obs(f, r) IN
   CASE k = "tuple3" -> (IF dir = "om" THEN Tup(<<a, m, a>>) ELSE Tup(<<m, a, m>>))
     [] k = "andgt"  -> (IF dir = "om" THEN Bin("and", a, MutAs(k, m)) ELSE Bin("and", MutAs(k, m), a))
     [] OTHER -> (IF dir = "om" THEN Comb(k, a, m) ELSE Comb(k, m, a))
+OrderExpr(w, f, k, dir) == OrderExprRM(Reader(w), Mutator(w), f, k, dir)
 
 \* the re-bindable function variable and the method: callee evaluated before the arguments
 FnVarExprs == [
@@ -159,6 +161,108 @@ HOrderStmt(body) ==
       DefC(OBx, TFn(<<>>, TInt), Fn(<<>>, TInt, <<Asg("+=", X, I(10)), Ex(X)>>)),
       DefC(OO, TB, Call(V(GMkB), <<I(1)>>))>> \o body \o
       <<Print(X), Print(V(GG)), Print(Fld(V(OO), "n"))>>)>>
+
+(* ---- CHAINS ----------------------------------------------------------- *)
+(* The watched state is reached through a CHAIN of links - field of field, *)
+(* index of field, field of index, index of index, a method called on a    *)
+(* field / on an indexed blob, and the one-link read of a tuple variable - *)
+(* and the mutator changes the chain AT A GIVEN LINK: it re-binds the root *)
+(* variable (link 0), assigns the field that holds the middle object       *)
+(* (link 1), or assigns the leaf (link 2/3).  A chain is read where it     *)
+(* stands, link by link: none of its reads may move past a later sibling.  *)
+(* Roots: locals of start captured by the mutator, or globals.             *)
+(*   Q :: blob { inner: B, pos: (int, int), tb: (B, int) }                 *)
+(*   q :: Q {..}   tv := (mkb(1), 2)   tt := ((1, 2), 3)   tp := (1, 2)    *)
+(*   mc := 0       mu :: fn -> int do mc += 50 ; <change> ; mc end         *)
+(***************************************************************************)
+OQ == 38
+OTv == 39
+OTt == 40
+OTp == 45
+OMc == 46
+OMu == 47
+GQ == 1015
+GTv == 1016
+GTt == 1017
+GTp == 1018
+TQ == TName("Q")
+TBI == TTuple(<<TB, TInt>>)
+TNest == TTuple(<<TPair, TInt>>)
+
+\* <<name, root, links as text>>; the digit in the name is the link the mutator changes
+ChainKinds == <<"ff1", "ff2", "fi1", "fif1", "fif3", "mf1", "mf2", "if0", "if2", "ii0", "iv0", "mi0", "mi2">>
+ChainRoots == <<"loc", "glob">>
+ChainRootVar(c, r) ==
+  LET g == r = "glob" IN
+  CASE c \in {"ff1", "ff2", "fi1", "fif1", "fif3", "mf1", "mf2"} -> V(IF g THEN GQ ELSE OQ)
+    [] c \in {"if0", "if2", "mi0", "mi2"} -> V(IF g THEN GTv ELSE OTv)
+    [] c = "ii0" -> V(IF g THEN GTt ELSE OTt)
+    [] c = "iv0" -> V(IF g THEN GTp ELSE OTp)
+MkB(n) == Call(V(GMkB), <<n>>)
+ChainReader(c, r) ==
+  LET v == ChainRootVar(c, r) IN
+  CASE c \in {"ff1", "ff2"}   -> Fld(Fld(v, "inner"), "n")
+    [] c = "fi1"              -> Idx(Fld(v, "pos"), 0)
+    [] c \in {"fif1", "fif3"} -> Fld(Idx(Fld(v, "tb"), 0), "n")
+    [] c \in {"mf1", "mf2"}   -> Call(Fld(Fld(v, "inner"), "get"), <<>>)
+    [] c \in {"if0", "if2"}   -> Fld(Idx(v, 0), "n")
+    [] c = "ii0"              -> Idx(Idx(v, 0), 1)
+    [] c = "iv0"              -> Idx(v, 1)
+    [] c \in {"mi0", "mi2"}   -> Call(Fld(Idx(v, 0), "get"), <<>>)
+\* the change, from the mutator's counter mc (a new value at every call)
+ChainChange(c, r) ==
+  LET v == ChainRootVar(c, r)  n == V(OMc) IN
+  CASE c \in {"ff1", "mf1"} -> Asg("=", Fld(v, "inner"), MkB(n))
+    [] c \in {"ff2", "mf2"} -> Asg("=", Fld(Fld(v, "inner"), "n"), n)
+    [] c = "fi1"            -> Asg("=", Fld(v, "pos"), Tup(<<n, Bin("+", n, I(1))>>))
+    [] c = "fif1"           -> Asg("=", Fld(v, "tb"), Tup(<<MkB(n), I(0)>>))
+    [] c = "fif3"           -> Asg("=", Fld(Idx(Fld(v, "tb"), 0), "n"), n)
+    [] c \in {"if0", "mi0"} -> Asg("=", v, Tup(<<MkB(n), I(0)>>))
+    [] c \in {"if2", "mi2"} -> Asg("=", Fld(Idx(v, 0), "n"), n)
+    [] c = "ii0"            -> Asg("=", v, Tup(<<Tup(<<I(9), n>>), I(0)>>))
+    [] c = "iv0"            -> Asg("=", v, Tup(<<I(9), n>>))
+ChainMutator == Call(V(OMu), <<>>)
+
+\* observation forms / combiners the chains go through (sequences: the quick tier takes a diagonal of the product)
+ChainForms == <<"id", "neg", "addl", "mul", "call", "tup", "lt", "ifx", "idx">>
+ChainCombs == <<"tuple", "tuple3", "add", "mul", "lt", "list", "args", "blob", "index", "andgt", "callsum">>
+ChainDirs == <<"om", "mo">>
+ChainIdx == {<<c, r, f, k, d>> \in (1..Len(ChainKinds)) \X (1..Len(ChainRoots)) \X (1..Len(ChainForms))
+                                   \X (1..Len(ChainCombs)) \X (1..Len(ChainDirs)) :
+                CombFits(ChainCombs[k], ObsType(ChainForms[f]))}
+\* keys are tuples of strings; stride 1 = everything, stride n = the keys whose index sum is divisible by n
+ChainKeys(stride) ==
+  {<<"chain", ChainKinds[x[1]], ChainRoots[x[2]], ChainForms[x[3]], ChainCombs[x[4]], ChainDirs[x[5]]>> :
+     x \in {y \in ChainIdx : (y[1] + y[2] + y[3] + y[4] + y[5]) % stride = 0}}
+ChainId(key) == [o |-> "chain-" \o key[2] \o "-" \o key[3], pos |-> 0, i |-> key[4] \o "-" \o key[5] \o "-" \o key[6], h |-> "chain"]
+
+OrderDecls == <<
+    BlobD("P2", <<FD("zz", TInt), FD("aa", TInt)>>),
+    DefN(GShow2, "const", TNone,
+         Fn(<<P(41, TInt), P(42, TInt)>>, TInt, <<Print(V(41)), Print(V(42)), Ex(Bin("-", V(41), V(42)))>>), "show2")>>
+ChainRootInit(c) ==
+  CASE c \in {"ff1", "ff2", "fi1", "fif1", "fif3", "mf1", "mf2"} ->
+         <<TQ, BlobL("Q", <<FI("inner", MkB(I(1))), FI("pos", Tup(<<I(1), I(2)>>)), FI("tb", Tup(<<MkB(I(1)), I(2)>>))>>)>>
+    [] c \in {"if0", "if2", "mi0", "mi2"} -> <<TBI, Tup(<<MkB(I(1)), I(2)>>)>>
+    [] c = "ii0" -> <<TNest, Tup(<<Tup(<<I(1), I(2)>>), I(3)>>)>>
+    [] c = "iv0" -> <<TPair, Tup(<<I(1), I(2)>>)>>
+ChainProg(key) ==
+  LET c == key[2]  r == key[3]
+      v == ChainRootVar(c, r)
+      ini == ChainRootInit(c)
+      \* the q-rooted chains never re-bind q: a constant; the others are re-bound by the mutator
+      kind == IF ini[1] = TQ THEN "const" ELSE "mut"
+      e == OrderExprRM(ChainReader(c, r), ChainMutator, key[4], key[5], key[6]) IN
+  Prelude \o OrderDecls \o
+  <<BlobD("Q", <<FD("inner", TB), FD("pos", TPair), FD("tb", TBI)>>)>> \o
+  (IF r = "glob" THEN <<DefN(v.b, kind, ini[1], ini[2], "")>> ELSE <<>>) \o
+  <<StartDef(Locals \o
+      (IF r = "loc" THEN <<DefN(v.b, kind, ini[1], ini[2], "")>> ELSE <<>>) \o
+      <<DefM(OMc, TInt, I(0)),
+        DefC(OMu, TFn(<<>>, TInt), Fn(<<>>, TInt, <<Asg("+=", V(OMc), I(50)), ChainChange(c, r), Ex(V(OMc))>>)),
+        Print(e), Print(ChainReader(c, r)), Print(V(OMc)),
+        \* once more, now as a statement of its own
+        DefC(OV, TInt, ChainReader(c, r)), Ex(ChainMutator), Print(V(OV)), Print(ChainReader(c, r))>>)>>
 
 (* ---- RE-ENTRANCY ------------------------------------------------------ *)
 NLevel == V(13)
